@@ -18,6 +18,8 @@ pub struct C07 {
     clean_run: bool,
     horizon_ms: u64,
     start_ms: u64,
+    /// Uplinks that were connected when the last housekeeping pass ended (before its drain).
+    connected_at_last_tick: Vec<u64>,
 }
 
 impl C07 {
@@ -29,6 +31,7 @@ impl C07 {
             clean_run: false,
             horizon_ms: 0,
             start_ms: 0,
+            connected_at_last_tick: Vec::new(),
         }
     }
 }
@@ -144,6 +147,19 @@ impl Monitor for C07 {
                                 out.probe("c07.driver_reg1");
                             } else {
                                 out.probe("c07.immediate_reg1");
+                                // the REG1 that answers a REG_NGP at once: the sender counts its
+                                // registered uplinks once per housekeeping pass, so the rule is
+                                // judged against the links that were connected at the end of the
+                                // last pass and still are
+                                let still: Vec<u64> = self.connected_at_last_tick.iter().copied().filter(|c| ctx.pre.iter().any(|v| v.conn_id == *c && v.connected)).collect();
+                                if !still.is_empty() {
+                                    out.violate(
+                                        &format!("{M}.driver_reg1"),
+                                        "immediate_while_registered",
+                                        ctx.idx,
+                                        format!("a group-creating REG1 answered a REG_NGP on link {link:x} although uplink(s) {still:x?} have been registered since before the last housekeeping pass"),
+                                    );
+                                }
                             }
                         }
                     }
@@ -231,6 +247,9 @@ impl Monitor for C07 {
                 format!("manager reports pending REG2 on {:x?}, wire history says {:x?}", real_pending, self.outstanding.map(|o| o.0)),
             );
             self.outstanding = real_pending.map(|c| (c, ctx.now));
+        }
+        if matches!(ctx.kind, StepKind::Housekeeping) {
+            self.connected_at_last_tick = ctx.mid.iter().filter(|v| v.connected).map(|v| v.conn_id).collect();
         }
         if ctx.idx % 4 == 0 {
             out.states.push(abstract_state(ctx.post, ctx.now, &ctx.world.reg));
